@@ -9,7 +9,7 @@ import numpy as _np
 import scipy.sparse as _sp
 import z3
 
-from .sym import Sym, SymBool, lift, sym_max, sym_min
+from .sym import Sym, Realisation, SymBool, lift, sym_max, sym_min
 
 SHIM_LIST = [
     'np: proxy to real numpy; zeros/ones/empty(float) return object arrays of Python floats; isnan (Sym is never NaN); '
@@ -98,6 +98,16 @@ class NP:
 
     def floor(self, a):
         return self._round(a, '__floor__', _np.floor)
+
+    def round(self, a, decimals=0, **kw):
+        if decimals != 0 and has_sym(_np.asarray(a, dtype=object)):
+            raise Realisation('round to decimals of symbolic values')
+        return self._round(a, 'rint', _np.round)
+    around = round
+    round_ = round
+
+    def rint(self, a, **kw):
+        return self._round(a, 'rint', _np.rint)
 
     def _round(self, a, meth, f):
         # floor / ceil of symbolic values stay symbolic (z3 to_int); concrete values as numpy does (floats)
